@@ -229,7 +229,7 @@ def check(prop, tier, seed):
 
     # --- impl -> spec ---------------------------------------------------------------------------
     if tier == "thorough":
-        shards, per = 16, 3500
+        shards, per = 16, 6000
     else:
         shards, per = 6, 800
     traces = []
